@@ -76,9 +76,17 @@ def modelAcc (t m : String) (l : Layout) (v : List Int) : String :=
   let wr := if m = "V" ∨ m = "R" ∨ m = "P" then showComma (v.map (· + 1)) else "-"
   s!"at={showComma v} sem={showComma sem} col={showComma col} idx={idx} dyn={dyn} wr={wr} off={showComma off}"
 
+/-- `k` copies of `x` joined by '/' (one result per overload / model combination of the harness) -/
+def rep (k : Nat) (x : String) : String := "/".intercalate (List.replicate k x)
+
 def modelAlg (l1 l2 : Layout) (v w : List Int) : String :=
   let n := l1.length
   let p1 := fn v; let p2 := fn w
+  -- number of models per operand: value pixel, plus a planar reference when the layout is the identity and n >= 2;
+  -- destinations: value, planar reference object, const planar reference object
+  let m1 := if n ≥ 2 ∧ l1 = identity n then 2 else 1
+  let m2 := if n ≥ 2 ∧ l2 = identity n then 2 else 1
+  let dm := if n ≥ 2 ∧ l2 = identity n then 3 else 1
   let fill := toList n (staticFill l1 p1 7)
   let gen := toList n (staticGenerate l1 p1 (fun s => 100 + (s : Int)))
   let fe1 := (visitOrder l1).map p1
@@ -90,7 +98,7 @@ def modelAlg (l1 l2 : Layout) (v w : List Int) : String :=
   let mn := staticMinIdx l1 p1; let mx := staticMaxIdx l1 p1
   let eq := staticEqual l1 l2 p1 p2
   let cp := toList n (staticCopy l1 l2 p1 p2)
-  s!"fill={showComma fill} gen={showComma gen} fe1={showComma fe1} fe2={showComma fe2} fe3={showComma fe3} tr1={showComma tr1} tr2={showComma tr2} min={p1 mn} max={p1 mx} minat={mn} maxat={mx} eq={b01 eq} cp={showComma cp}"
+  s!"fill={showComma fill} gen={showComma gen} fe1={rep (2 * m1) (showComma fe1)} fe2={rep (4 * m1 * m2) (showComma fe2)} fe3={rep (8 * m1 * m2) (showComma fe3)} tr1={rep (2 * m1 * dm) (showComma tr1)} tr2={rep (4 * m1 * m2 * dm) (showComma tr2)} min={p1 mn} max={p1 mx} minat={mn} maxat={mx} eq={rep (4 * m1 * m2) (b01 eq)} cp={rep (2 * m1 * m2) (showComma cp)}"
 
 def modelSpare (t dlName sm slName : String) (dl sl : Layout) (raw : Nat) (v : List Int) : String :=
   match spareSet t with
@@ -184,30 +192,39 @@ def judgeAcc (t m : String) (l : Layout) (v : List Int) (ows : List String) : St
                (off == offExp, "at_c-position")]
   | _, _, _, _, _, _, _ => fail "shape"
 
+/-- a field holding several results joined by '/' -/
+def multiField (ws : List String) (key : String) : Option (List String) := (field ws key).map (fun x => x.splitOn "/")
+def multiList (ws : List String) (key : String) : Option (List (List Int)) := (multiField ws key).bind (fun xs => xs.mapM commaInts)
+
 def judgeAlg (m1 m2 : Layout) (v w : List Int) (ows : List String) : String :=
   let n := m1.length
   let a (s : Nat) : Int := v.getD (m1.phys s) 0
   let b (s : Nat) : Int := w.getD (m2.phys s) 0
   let sems := List.range n
   let bySem (d : List Int) (m : Layout) (f : Nat → Int) : Bool := d.length == n && sems.all (fun s => d.getD (m.phys s) 0 == f s)
-  match listField ows "fill", listField ows "gen", listField ows "fe1", listField ows "fe2", listField ows "fe3",
-        listField ows "tr1", listField ows "tr2" with
+  -- how many overload / model combinations the harness must have run (Spec: every one of them pairs by colour)
+  let k1 := if n ≥ 2 ∧ m1 = identity n then 2 else 1
+  let k2 := if n ≥ 2 ∧ m2 = identity n then 2 else 1
+  let kd := if n ≥ 2 ∧ m2 = identity n then 3 else 1
+  let every (xs : List (List Int)) (k : Nat) (ok : List Int → Bool) : Bool := xs.length == k && xs.all ok
+  match listField ows "fill", listField ows "gen", multiList ows "fe1", multiList ows "fe2", multiList ows "fe3",
+        multiList ows "tr1", multiList ows "tr2" with
   | some fill, some gen, some fe1, some fe2, some fe3, some tr1, some tr2 =>
     match (field ows "min").bind String.toInt?, (field ows "max").bind String.toInt?, (field ows "minat").bind String.toNat?,
-          (field ows "maxat").bind String.toNat?, field ows "eq", listField ows "cp" with
+          (field ows "maxat").bind String.toNat?, multiField ows "eq", multiList ows "cp" with
     | some mn, some mx, some mnat, some mxat, some eq, some cp =>
       firstFail [
         (fill == List.replicate n 7, "fill"),
         (bySem gen m1 (fun s => 100 + (s : Int)), "generate-each-channel-once"),
-        (sameMultiset fe1 v, "for_each-each-channel-once"),
-        (sameMultiset fe2 (sems.map (fun s => a s * 1000 + b s)), "for_each-pairs-by-colour"),
-        (sameMultiset fe3 (sems.map (fun s => (a s * 1000 + b s) * 1000 + a s)), "for_each-triples-by-colour"),
-        (bySem tr1 m2 (fun s => a s + 1), "transform-by-colour"),
-        (bySem tr2 m2 (fun s => a s * 16 + b s), "transform2-by-colour"),
+        (every fe1 (2 * k1) (fun x => sameMultiset x v), "for_each-each-channel-once"),
+        (every fe2 (4 * k1 * k2) (fun x => sameMultiset x (sems.map (fun s => a s * 1000 + b s))), "for_each-pairs-by-colour"),
+        (every fe3 (8 * k1 * k2) (fun x => sameMultiset x (sems.map (fun s => (a s * 1000 + b s) * 1000 + a s))), "for_each-triples-by-colour"),
+        (every tr1 (2 * k1 * kd) (fun x => bySem x m2 (fun s => a s + 1)), "transform-by-colour"),
+        (every tr2 (4 * k1 * k2 * kd) (fun x => bySem x m2 (fun s => a s * 16 + b s)), "transform2-by-colour"),
         (v.all (fun x => mn ≤ x) && v.contains mn, "min"), (v.all (fun x => x ≤ mx) && v.contains mx, "max"),
         (v.getD mnat (mn - 1) == mn, "min-reference"), (v.getD mxat (mx + 1) == mx, "max-reference"),
-        (eq == b01 (sems.all (fun s => a s == b s)), "equal-by-colour"),
-        (bySem cp m2 a, "copy-by-colour")]
+        (eq.length == 4 * k1 * k2 && eq.all (· == b01 (sems.all (fun s => a s == b s))), "equal-by-colour"),
+        (every cp (2 * k1 * k2) (fun x => bySem x m2 a), "copy-by-colour")]
     | _, _, _, _, _, _ => fail "shape"
   | _, _, _, _, _, _, _ => fail "shape"
 
